@@ -2950,7 +2950,7 @@ sexp sexp_read_number (sexp ctx, sexp in, int base, int exactp) {
   }
 
 #if SEXP_USE_COMPLEX
-  if (c == 'i' || c == 'I') val = 1;
+  if ((c == 'i' || c == 'I') && base <= 18) val = 1;
 #endif
 
   for ( ; sexp_isxdigit(c) || (base > 16 && sexp_isalpha(c)); c=sexp_read_char(ctx, in)) {
